@@ -116,6 +116,27 @@ func isCallTo(t ir.Term, key string) (*ir.App, bool) {
 
 const sysPath = "github.com/karino2/folang/pkg/sys"
 
+// strictlyContains: is t the term printed `want`, or a string that extends it — strings.AppendHead(x, ·),
+// strings.AppendTail(x, ·) or a `+` concatenation with it?  Then the complete text is evaluated before the call
+// that receives t, and all of it is part of t.
+func strictlyContains(path string, t ir.Term, want string) bool {
+	if ir.String(path, t) == want {
+		return true
+	}
+	switch x := t.(type) {
+	case *ir.App:
+		if fr, ok := x.Fun.(*ir.FuncRef); ok && len(x.Args) == 2 &&
+			(fr.Key == "github.com/karino2/folang/pkg/strings.AppendHead" || fr.Key == "github.com/karino2/folang/pkg/strings.AppendTail") {
+			return strictlyContains(path, x.Args[1], want)
+		}
+	case *ir.BinOp:
+		if x.Op == "+" {
+			return strictlyContains(path, x.L, want) || strictlyContains(path, x.R, want)
+		}
+	}
+	return false
+}
+
 // checkIOResults: rule C16.a (and C18.c) on one lowered package.
 // Every call of sys.ReadFile / sys.WriteFile must have its ok result tested,
 // the failing side must reach a no-return call, and every other use of the
@@ -298,6 +319,8 @@ func checkC16(c *Ctx) {
 	r.Rule("C16.c", "single recover site, non-zero exit, deferred first in the success branch, no goroutines", 5)
 	r.Rule("C16.d", "hand-written loops: exit at end of input and progress", 30)
 	r.Rule("C16.g", "a recursive pass never applies the recursion twice to the same child on one path (time would be exponential in the nesting depth)", 100)
+	r.Rule("C16.h", "a String/Error/GoString/Format method never hands its own receiver to a formatter (fmt would call it again: stack overflow, no diagnostic)", 40)
+	checkFormattingMethodsDoNotReenter(c, "C16.h")
 	r.Rule("C16.e1", "visited-set consistency: if one name-unfolding arm of a traversal is guarded by the visited set, all are", 2)
 	r.Rule("C16.e2", "resolver unfolding is guarded by a depth counter (compared with a constant before a no-return call, incremented in the knot)", 1)
 
@@ -321,21 +344,22 @@ func checkC16(c *Ctx) {
 	// (b)
 	if nf, fn := f.NF("transpileOne"); fn != nil {
 		pos := c.Pos(f.M.Fset, fn.Decl.Pos())
-		var contents []string
+		// every write's content is the complete translation or an extension of it (head/tail added): it is
+		// evaluated — and every parse/infer/emit panic raised — before the write, and nothing of it is cut
+		const want = "RootStmtsToGo(#1(ParseAll(psSetNewSrc(#0(sys.ReadFile(p1)), p0))))"
+		nW, bad := 0, []string{}
 		ir.Walk(f.N.Func(fn), func(t ir.Term) bool {
 			if app, ok := isCallTo(t, sysPath+".WriteFile"); ok && len(app.Args) == 2 {
-				contents = append(contents, ir.String(f.Path, app.Args[1]))
+				nW++
+				if !strictlyContains(f.Path, app.Args[1], want) {
+					bad = append(bad, ir.String(f.Path, app.Args[1]))
+				}
 			}
 			return true
 		})
-		uniq := map[string]bool{}
-		for _, s := range contents {
-			uniq[s] = true
-		}
-		const want = "RootStmtsToGo(#1(ParseAll(psSetNewSrc(#0(sys.ReadFile(p1)), p0))))"
-		r.Check(len(uniq) == 1 && uniq[want], "C16.b", "transpileOne", "write-content", pos,
-			"the written content is "+want+": every parse/infer/emit panic precedes the write (data dependence)",
-			"the content written is not the complete translation of the file: "+strings.Join(sortedKeys(uniq), " | ")+" in "+short(nf, 200))
+		r.Check(nW >= 1 && len(bad) == 0, "C16.b", "transpileOne", "write-content", pos,
+			"the written content is "+want+" (possibly extended by a head or a tail): every parse/infer/emit panic precedes the write (data dependence)",
+			"the content written is not the complete translation of the file (or an extension of it by AppendHead/AppendTail/+): "+strings.Join(bad, " | ")+" in "+short(nf, 200))
 	} else {
 		r.Undecided("C16.b", "transpileOne", "definition", "fc", "anchor function not found")
 	}
@@ -757,7 +781,6 @@ func goStmtCount(f *FC) int {
 	}
 	return n
 }
-
 
 // checkOnParseErrorForm: the recovered branch prints the file name and the recovered value, unmodified, and exits.
 func checkOnParseErrorForm(c *Ctx, f *FC, rule string) {
